@@ -21,9 +21,10 @@ def contracts(tier):
 
 
 def extra_obligations(tier):
-    return [solve.custom_result('mlmatrix:to_seq[lemma L=%d]' % L, mlmatrix.F, 'to_seq', (lambda L=L: mlmatrix.horner_injective(L)))
+    _pu = solve.custom_result('paramuse:C15', 'pyiga/mlmatrix.py', 'all functions', __import__('pyvc.paramuse', fromlist=['x']).obligations(['pyiga/mlmatrix.py', 'pyiga/utils.py'], 'paramuse'))
+    _r = [solve.custom_result('mlmatrix:to_seq[lemma L=%d]' % L, mlmatrix.F, 'to_seq', (lambda L=L: mlmatrix.horner_injective(L)))
             for L in (1, 2, 3)]
-
+    return list(_r) + [_pu]
 
 MANIFEST = {
     'category': 'proof',
